@@ -29,13 +29,30 @@ def main():
         if os.path.exists(os.path.join(d, "result.json")):
             res = json.load(open(os.path.join(d, "result.json")))
         meta_path = os.path.join(d, "meta.json")
-        if name.startswith("agent-"):
+        if name.startswith("refactor-"):
+            notes = open(os.path.join(d, "notes.md")).read() if os.path.exists(os.path.join(d, "notes.md")) else ""
+            meta = {
+                "id": name, "breaks": "nothing (behaviour-preserving)",
+                "origin": "written by an independent sub-agent that was given the texts of all twenty "
+                          "properties and its own scratch worktree of /repo (nothing from /verif) and asked "
+                          "for refactorings that keep every property true while changing incidental, "
+                          "unconstrained behaviour; used to look for false alarms",
+                "what": first_heading(notes),
+                "needs_to_manifest": "n/a - every check must stay silent on this change",
+                "demonstration": "notes.md argues property by property why all twenty still hold",
+                "ran": "tools/killmatrix.py seeded/%s --tests" % name,
+            }
+        elif name.startswith(("agent-", "agent2-")):
             prop = name.split("-")[1]
             notes = open(os.path.join(d, "notes.md")).read() if os.path.exists(os.path.join(d, "notes.md")) else ""
             meta = {
                 "id": name, "breaks": prop,
-                "origin": "written by an independent sub-agent that was given only the text of property %s "
-                          "and its own scratch worktree of /repo (nothing from /verif)" % prop,
+                "origin": "written by an independent sub-agent (round %s) that was given only the text of "
+                          "property %s and its own scratch worktree of /repo (nothing from /verif)%s" % (
+                              "2" if name.startswith("agent2-") else "1", prop,
+                              "; round 2 was additionally given one-line summaries of the round-1 changes "
+                              "(written by the round-1 agents) and asked for different, subtler mechanisms"
+                              if name.startswith("agent2-") else ""),
                 "what": first_heading(notes),
                 "needs_to_manifest": "see notes.md (the sub-agent's own description)",
                 "demonstration": "demo.py <checkout>: exits 0 on the clean tree, 1 with patch.diff applied",
@@ -57,6 +74,8 @@ def main():
             meta["violation_tags"] = {c: r["tags"] for c, r in res.get("checks", {}).items() if r["exit"] == 1}
         json.dump(meta, open(meta_path, "w"), indent=1)
         rows.append((name, meta.get("breaks", "?"), meta.get("what", ""), res))
+    refactors = [r for r in rows if r[0].startswith("refactor-")]
+    rows = [r for r in rows if not r[0].startswith("refactor-")]
     out = []
     _print = out.append
     _print("| seeded change | targets | what | suite passes | killed by (quick tier) |")
@@ -75,6 +94,23 @@ def main():
             k += " (harness error: %s)" % ", ".join(errs)
         what = re.sub(r"\s+", " ", what)[:110]
         _print("| %s | %s | %s | %s | %s |" % (name, prop, what.replace("|", "/"), suite, k))
+    _print("")
+    _print("Behaviour-preserving changes (every check must stay silent):")
+    _print("")
+    _print("| change | what changes observably | suite passes | checks raising an alarm |")
+    _print("|---|---|---|---|")
+    for name, prop, what, res in refactors:
+        checks = res.get("checks", {})
+        alarms = [c for c in sorted(checks) if checks[c]["exit"] == 1]
+        errs = [c for c in sorted(checks) if checks[c]["exit"] == 2]
+        t = res.get("tests")
+        suite = "yes" if t and t.get("exit") == 0 else ("n/a" if not t else "NO")
+        k = ", ".join(alarms) or "none"
+        if errs:
+            k += " (harness error: %s)" % ", ".join(errs)
+        if len(checks) < 20:
+            k += " (%d checks run)" % len(checks)
+        _print("| %s | %s | %s | %s |" % (name, re.sub(r"\s+", " ", what)[:120].replace("|", "/"), suite, k))
     table = "\n".join(out)
     print(table)
     dpath = os.path.join(HERE, "DESIGN.md")
